@@ -8,11 +8,14 @@
    All theorems are by structural induction on the view term, hence hold for every composition at
    any depth, every dimensionality and all parameters.
    `usize_view c`: the lengths of every mask's source are <= usize::MAX (a typing fact in Rust).
+   Nothing is `_partial` any more: wf, presence, in-bounds resolution, the mappings, the
+   constructor rules, injectivity / write exactness (all adaptors incl. stack and chain) and the
+   linear-layout statement are proved for every term.  Not modelled: see notes/C02.md.
    Shared / mutable / unchecked access are ONE function in the model (`c_get`); that the three
    Rust accessors resolve to the same address is cross-checked by the harness on every probe. *)
 From Coq Require Import List ZArith NArith Bool Arith Permutation.
 From EasyML Require Import Base.Sx Model.Shape Model.Views Proofs.ShapeP Proofs.C01P
-  Proofs.C02Lemmas Proofs.C02P Proofs.C02Q Proofs.C02Inj.
+  Proofs.C02Lemmas Proofs.C02P Proofs.C02Q Proofs.C02Inj Proofs.C02W Proofs.C02Lin.
 Import ListNotations.
 Open Scope N_scope.
 
@@ -31,6 +34,14 @@ Theorem C02_out_of_range_absent : forall v c idx d, v_ctor v = Ok c -> usize_vie
   length idx = length (c_shape c) -> (d < length idx)%nat ->
   nth d (lens_of (c_shape c)) 0 <= nth d idx 0 -> c_get c idx = None.
 Proof. exact view_oob_absent. Qed.
+
+(* every index a view reports present resolves to a storage position inside the stored data of
+   one of its leaves: `c_leaves c` lists (leaf id, element count) and a leaf's store holds exactly
+   that many elements (tensor / matrix invariant), so `off < n` is "inside the stored data";
+   used by C10 *)
+Theorem C02_resolves_in_bounds : forall v c idx l off, v_ctor v = Ok c ->
+  c_get c idx = Some (l, off) -> exists n, In (l, n) (c_leaves c) /\ off < n.
+Proof. exact resolves_in_bounds. Qed.
 
 (* every successful constructor establishes the invariants of its stored fields (clipped ranges
    inside the source, provided indexes in range, extra dimensions sorted / fresh / in position,
@@ -110,33 +121,44 @@ Theorem C02_ctor_strict_outside : forall clip_from c rs, length rs = length (c_s
 Proof. exact strict_rule. Qed.
 
 (* ---- injectivity: writes land on the designated element only ----
-   FULL statement (not proved for stack / chain):
-     forall v c, v_ctor v = Ok c -> usize_view c -> NoDup (map fst (c_leaves c)) -> inj_on c.
-   PROVED: every composition, at any depth, of the nine single-source adaptors (sub-range, mask,
-   selection, expansion, rename, reversal, reordering, transposition, Box/&/&mut) over tensor and
-   matrix-backed leaves: two different in-shape indexes never resolve to the same element, hence
-   a write through the view at idx leaves what every other in-shape index reads unchanged.
-   Missing: the two multi-source adaptors (needs "the element's leaf belongs to the selected
-   source" + pairwise distinct leaves); their write-through behaviour is validated by the
-   correspondence check (write then dump every leaf) only. *)
-Theorem C02_injective_partial : forall v c, v_ctor v = Ok c -> usize_view c -> single_source c ->
+   for EVERY view term (all adaptors incl. stack and chain, any depth), given pairwise distinct
+   leaf ids (distinct leaf tensors / matrices): two different in-shape indexes never resolve to the
+   same (leaf, offset).  A write through the view at idx stores into exactly c_get c idx
+   (Run/RunC02.v `do_writes`, validated against the real `get_reference_mut` /
+   `get_reference_unchecked_mut` by the correspondence check), so every other in-shape index
+   still reads its old element. *)
+Theorem C02_injective : forall v c, v_ctor v = Ok c -> usize_view c -> NoDup (leaf_ids c) ->
   forall i1 i2, in_range i1 (lens_of (c_shape c)) -> in_range i2 (lens_of (c_shape c)) ->
     c_get c i1 = c_get c i2 -> i1 = i2.
-Proof. exact (fun v c H U S => single_source_injective c (ctor_wf v c H) U S). Qed.
+Proof. exact (fun v c H U N => view_injective c (ctor_wf v c H) U N). Qed.
+
+Theorem C02_write_exact : forall v c, v_ctor v = Ok c -> usize_view c -> NoDup (leaf_ids c) ->
+  forall i1 i2, in_range i1 (lens_of (c_shape c)) -> in_range i2 (lens_of (c_shape c)) ->
+    i1 <> i2 -> c_get c i1 <> c_get c i2.
+Proof. exact (fun v c H U N => view_write_exact c (ctor_wf v c H) U N). Qed.
 
 (* ---- linear layout ----
-   FULL statement (not proved in general):
-     forall v c order, v_ctor v = Ok c -> c_layout c = Ok (Linear order) ->
-       exists id tbl, access_tbl c order = Ok tbl /\ c_leaves c = [(id, elements (c_shape c))] /\
-         map (c_get (CAccess c tbl)) (all_indexes (lens_of (c_shape (CAccess c tbl))))
-         = map (fun k => Some (id, N.of_nat k)) (seq 0 (N.to_nat (elements (c_shape c)))).
-   PROVED (by kernel evaluation): the statement for every composition of up to three (two for the
-   4-dimensional leaf) accesses / transpositions with EVERY permutation, renames and wrappers over a
-   2x3x2 tensor, a 2x3 matrix-backed source and a 2x1x2x3 tensor with unordered names: 19 000 terms.
-   Missing: the inductive invariant "a Linear view is a permuted whole leaf" for arbitrary depth
-   and shape.  The correspondence check additionally verifies contiguity of the ADDRESSES on every
-   generated Linear view. *)
-Theorem C02_linear_layout_partial :
+   Whenever a constructed view (ANY term, any depth) claims DataLayout::Linear(order):
+   `order` is a permutation of the view's dimension names, TensorAccess::from_memory_order
+   succeeds, the view spans ONE whole leaf (its element count is the leaf's), and walking the view
+   in the claimed order visits that leaf's offsets 0, 1, 2, ... : strictly increasing and
+   contiguous.  By structural induction: Linear survives exactly through rename / access /
+   transposition / wrappers over tensor and matrix-backed leaves (every other adaptor reports
+   NonLinear or Other), and for those the invariant "indexing the view by name in the claimed
+   order is row-major addressing of the leaf" (Proofs/C02Lin.v `lin_inv`) is preserved. *)
+Theorem C02_linear_layout : forall v c order, v_ctor v = Ok c -> usize_view c ->
+  c_layout c = Ok (Linear order) ->
+  Permutation order (names_of (c_shape c)) /\
+  exists id tbl,
+    access_tbl c order = Ok tbl /\
+    c_leaves c = [(id, elements (c_shape c))] /\
+    map (c_get (CAccess c tbl)) (all_indexes (lens_of (c_shape (CAccess c tbl)))) =
+    map (fun k => Some (id, N.of_nat k)) (seq 0 (N.to_nat (elements (c_shape c)))).
+Proof. exact linear_layout. Qed.
+
+(* the same, re-checked by kernel evaluation on ~19 000 concrete layout-preserving terms (an
+   independent executable cross-check of the statement above, kept as an extra) *)
+Theorem C02_linear_layout_enumerated :
   forallb walk_ok (layout_terms 3 (VTensor 0 [(0%nat, 2); (1%nat, 3); (2%nat, 2)]) [0; 1; 2]%nat) = true /\
   forallb walk_ok (layout_terms 3 (VMatrix 0 2 3 0%nat 1%nat) [0; 1]%nat) = true /\
   forallb walk_ok (layout_terms 2 (VTensor 0 [(3%nat, 2); (1%nat, 1); (0%nat, 2); (2%nat, 3)]) [3; 1; 0; 2]%nat) = true.
@@ -180,6 +202,7 @@ Qed.
 Print Assumptions C02_wf.
 Print Assumptions C02_present_iff.
 Print Assumptions C02_out_of_range_absent.
+Print Assumptions C02_resolves_in_bounds.
 Print Assumptions C02_ctor_invariants.
 Print Assumptions C02_mapping_range.
 Print Assumptions C02_mapping_mask.
@@ -191,6 +214,8 @@ Print Assumptions C02_mapping_stack.
 Print Assumptions C02_mapping_chain.
 Print Assumptions C02_ctor_lenient_clips.
 Print Assumptions C02_ctor_strict_outside.
-Print Assumptions C02_injective_partial.
-Print Assumptions C02_linear_layout_partial.
+Print Assumptions C02_injective.
+Print Assumptions C02_write_exact.
+Print Assumptions C02_linear_layout.
+Print Assumptions C02_linear_layout_enumerated.
 Print Assumptions C02_transpose_layout_as_written_refuted.
